@@ -792,7 +792,7 @@ func c07MakeCase(role string, input []byte) c07Case {
 func c07Judge(role string, input []byte) *c07Finding {
 	r, hung := c07Guarded(role, input, true, 0, &c07Current{role: role, input: input})
 	if hung != nil {
-		return &c07Finding{hung.Monitor, hung.Method, "the call did not return within the CPU/wall budget of a battery"}
+		return &c07Finding{hung.Monitor, hung.Method, "the call did not return within the CPU/wall budget of one call"}
 	}
 	if len(r.findings) == 0 {
 		return nil
